@@ -220,7 +220,20 @@ def run_packed_io(ctx):
 
 u16 = vs.edge_int(0, 0xFFFF, extra=(0xFF, 0x100, 0x8000, 0x7FFF, 0xFF00, 0x00FF))
 cell = st.tuples(st.sampled_from(NOTECMDS), vs.edge_int(0, 129), u16, u16, u16).map(list)
-sparse_cell = st.one_of(st.just([0, 0, 0, 0, 0]), cell)
+
+
+@st.composite
+def single_field_cell(draw):
+    """Tracker-style partial cells: exactly one column set (only a note, only a velocity,
+    only a module number, only a controller/effect word, only a value)."""
+    c = [0, 0, 0, 0, 0]
+    i = draw(st.integers(0, 4))
+    c[i] = draw([st.sampled_from(NOTECMDS[1:]), st.integers(1, 129), vs.edge_int(1, 0xFFFF), vs.edge_int(1, 0xFFFF), vs.edge_int(1, 0xFFFF)][i])
+    return c
+
+
+cell = st.one_of(cell, cell, single_field_cell())
+sparse_cell = st.one_of(st.just([0, 0, 0, 0, 0]), cell, single_field_cell())
 
 
 def check_note(c):
